@@ -160,7 +160,7 @@ def run_check(check, tier="quick", seed=0, workers=None, replay=None, log=sys.st
             batch = 4 if len(pending) + len(running) < workers * 2 else 64
             while pending and len(running) < workers * 2 and stats["paths"] + len(running) * batch < max_paths:
                 d = pending.pop(rnd.randrange(len(pending)) if seed and len(pending) > 1 else 0)
-                running.add(ex.submit(_worker_batch, d, batch))
+                running.add(ex.submit(_worker_batch, d, batch)); stats["tasks"] += 1
             if not running:
                 truncated = bool(pending)
                 break
@@ -193,7 +193,7 @@ def run_check(check, tier="quick", seed=0, workers=None, replay=None, log=sys.st
                 break
     explore_s = time.time() - t_explore
     say(f"[{pid}] explored {stats['paths']} paths ({dict(outcomes)}) in {explore_s:.1f}s; {stats['queries']} solver queries, {solver_s:.1f}s solver time; "
-        f"{len(fns)} crate functions interpreted; obligations {counters['obligations']} discharged {counters['discharged']}")
+        f"{len(fns)} crate functions interpreted; {stats['tasks']} worker tasks; obligations {counters['obligations']} discharged {counters['discharged']}")
 
     # ---- candidate violations: one native confirmation per distinct role
     known = load_known()
